@@ -17,7 +17,7 @@ use serde_json::{json, Value};
 use vcommon::{Args, Hasher64, Report, Rng};
 
 const NS: &[usize] = &[1, 2, 3, 7, 10, 32, 1024, 1028];
-const TS: &[u64] = &[1, 2, 7, 1_000, 2_500_000, 1_000_000_000, 3_000_000_000];
+const TS: &[u64] = &[1, 2, 7, 1_000, 2_500_000, 1_000_000_000, 3_000_000_000, 1 << 61, (1 << 62) + 12_345];
 
 const PAYLOADS: &[&str] = &[
     Ident::NAME,
@@ -95,7 +95,7 @@ fn choose_time<P: Payload>(rng: &mut Rng, r: &Runner<P>, prof: &Profile, far_lef
                 None => continue,
             },
             // uniformly within the next three years
-            7 => c + rng.below((3 * year).min(u128::from(u64::MAX)) as u64 + 1) as u128,
+            7 => c + rng.below((3 * year).min(u128::from(u64::MAX - 1)) as u64 + 1) as u128,
             // next bucket boundary +-1
             8 => {
                 let b = (c / t + 1) * t;
